@@ -80,6 +80,7 @@ func runC01(c *ev.Ctx) {
 	works := famWorks(gen.Mix(seed, 1), gen.Families, lens, reps, c01Specs(r))
 	if c.Thorough() {
 		works = append(works, famWorks(gen.Mix(seed, 2), gen.Families, thoroughLens, 1, c01Specs(r))...)
+		works = append(works, famWorks(gen.Mix(seed, 11), gen.Families, lens, 60, c01Specs(r))...)
 		works = append(works, famWorks(gen.Mix(seed, 3), []string{"uniform", "slight", "biased", "markov"}, seededLens(r, 12, 33333, 1000000), 1, c01Specs(r))...)
 	}
 	// near-cancellation inputs for the overlapping test: exact second difference is 0 or k/n (tiny)
@@ -331,7 +332,8 @@ func runC02(c *ev.Ctx) {
 		}
 	}
 	if c.Thorough() {
-		works = append(works, famWorks(gen.Mix(seed, 2), gen.Families, thoroughLens, 1, all)...)
+		works = append(works, famWorks(gen.Mix(seed, 2), gen.Families, thoroughLens, 3, all)...)
+		works = append(works, famWorks(gen.Mix(seed, 11), gen.Families, lens, 400, all)...)
 		works = append(works, famWorks(gen.Mix(seed, 3), []string{"uniform", "slight", "biased", "markov"}, seededLens(r, 12, 33333, 1000000), 1, all)...)
 	}
 	runSeqWorks(c, works)
@@ -410,7 +412,8 @@ func runC03(c *ev.Ctx) {
 		}
 	}
 	if c.Thorough() {
-		works = append(works, famWorks(gen.Mix(seed, 2), gen.Families, thoroughLens, 1, all)...)
+		works = append(works, famWorks(gen.Mix(seed, 2), gen.Families, thoroughLens, 3, all)...)
+		works = append(works, famWorks(gen.Mix(seed, 11), gen.Families, lens, 100, all)...)
 		works = append(works, famWorks(gen.Mix(seed, 3), []string{"uniform", "slight", "biased", "markov"}, seededLens(r, 12, 33333, 1000000), 1, all)...)
 	}
 	runSeqWorks(c, works)
